@@ -1,3 +1,1214 @@
+import Rspirv.Props.C03
+import Rspirv.Props.C08
+import Rspirv.Props.C09
 import Rspirv.Model.Assemble
+/-!
+# C02 — assemble and parse are inverse to each other on the instructions of the grammar
+
+The grammar is the recogniser `Rspirv.Model.Spec` (see `Props/C03.lean`: the parser accepts exactly what it accepts).
+An instruction *of the grammar* is one the recogniser produces from some word list. For every such instruction `i`:
+
+* `C02_spec` – the words the assembler emits for `i`, followed by anything, are recognised again as exactly `i` with that
+  continuation left over: `Spec.inst (assembleInst i ++ rest) = some (i, rest)`;
+* `C02_first_word` – the first emitted word is `word count << 16 | opcode` with the word count equal to the number of
+  words emitted; then result type, result id and the operands' encodings follow (by definition of `assembleInst`);
+* `C02` – the statement for the parser model itself: parsing the bytes of `assembleInst i` (after any state between
+  instructions) delivers `i`.
+
+The proof is one family of lemmas `*_enc`: each `Spec` routine that succeeds on some words with value `x` succeeds with
+the same `x` on `enc x ++ rest` for every continuation `rest`, where `enc` is the assembler's encoding (enumerants and
+masks as their value, 64-bit literals low word first, strings NUL-terminated and zero-padded).
+-/
 namespace Rspirv.Props.C02
+open Rspirv Rspirv.Model Rspirv.Model.DState Rspirv.Props.C04 Rspirv.Props.ParserSpec
+
+def WordsOk (ws : List Nat) : Prop := ∀ w ∈ ws, w < 4294967296
+
+theorem WordsOk.tail {w : Nat} {t : List Nat} (h : WordsOk (w :: t)) : WordsOk t :=
+  fun x hx => h x (List.mem_cons_of_mem _ hx)
+
+theorem WordsOk.drop {ws : List Nat} (h : WordsOk ws) (n : Nat) : WordsOk (ws.drop n) :=
+  fun x hx => h x (List.mem_of_mem_drop hx)
+
+theorem WordsOk.take {ws : List Nat} (h : WordsOk ws) (n : Nat) : WordsOk (ws.take n) :=
+  fun x hx => h x (List.mem_of_mem_take hx)
+
+/-! ### strings -/
+
+theorem wordBytes_lt (w : Nat) : ∀ b ∈ Spec.wordBytes w, b < 256 := by
+  intro b hb
+  simp only [Spec.wordBytes, List.mem_cons, List.mem_nil_iff, or_false] at hb
+  rcases hb with rfl | rfl | rfl | rfl <;> omega
+
+theorem flatMap_wordBytes_lt (ws : List Nat) : ∀ b ∈ ws.flatMap Spec.wordBytes, b < 256 := by
+  intro b hb
+  obtain ⟨w, _, hw⟩ := List.mem_flatMap.1 hb
+  exact wordBytes_lt w b hw
+
+theorem flatMap_wordBytes_length (ws : List Nat) : (ws.flatMap Spec.wordBytes).length = 4 * ws.length := by
+  induction ws with
+  | nil => rfl
+  | cons w t ih => simp only [List.flatMap_cons, List.length_append, ih, Spec.wordBytes, List.length_cons, List.length_nil]; omega
+
+/-- the bytes of a packed string: the string, its NUL, zero padding to the word boundary -/
+theorem packStr_bytes : ∀ (n : Nat) (bs : List Nat), bs.length = n → (∀ b ∈ bs, b < 256) →
+    (packStr bs).flatMap Spec.wordBytes = bs ++ List.replicate (4 - bs.length % 4) 0 ∧
+    (packStr bs).length = bs.length / 4 + 1
+  | n, bs, hn, hb => by
+    match bs, hn, hb with
+    | [], _, _ => simp [packStr, leWord, Spec.wordBytes]
+    | [b0], _, hb =>
+      have h0 := hb b0 (by simp)
+      simp only [packStr, leWord, List.getD_eq_getElem?_getD]
+      refine ⟨?_, by simp⟩
+      simp [Spec.wordBytes]
+      refine ⟨by omega, by omega, by omega, by omega⟩
+    | [b0, b1], _, hb =>
+      have h0 := hb b0 (by simp)
+      have h1 := hb b1 (by simp)
+      simp only [packStr, leWord, List.getD_eq_getElem?_getD]
+      refine ⟨?_, by simp⟩
+      simp [Spec.wordBytes]
+      refine ⟨by omega, by omega, by omega, by omega⟩
+    | [b0, b1, b2], _, hb =>
+      have h0 := hb b0 (by simp)
+      have h1 := hb b1 (by simp)
+      have h2 := hb b2 (by simp)
+      simp only [packStr, leWord, List.getD_eq_getElem?_getD]
+      refine ⟨?_, by simp⟩
+      simp [Spec.wordBytes]
+      refine ⟨by omega, by omega, by omega, by omega⟩
+    | b0 :: b1 :: b2 :: b3 :: t, hn, hb =>
+      have h0 := hb b0 (by simp)
+      have h1 := hb b1 (by simp)
+      have h2 := hb b2 (by simp)
+      have h3 := hb b3 (by simp)
+      obtain ⟨ih1, ih2⟩ := packStr_bytes t.length t rfl (fun b hb' => hb b (by simp [hb']))
+      have hw : Spec.wordBytes (leWord [b0, b1, b2, b3]) = [b0, b1, b2, b3] := by
+        simp only [leWord, List.getD_eq_getElem?_getD]
+        exact le32_bytes b0 b1 b2 b3 h0 h1 h2 h3
+      simp only [packStr, List.flatMap_cons, hw, ih1, List.length_cons, ih2]
+      refine ⟨?_, by omega⟩
+      have : (t.length + 1 + 1 + 1 + 1) % 4 = t.length % 4 := by omega
+      simp [this]
+termination_by n => n
+decreasing_by simp_all; omega
+
+theorem findIdx_zero (bs tail : List Nat) (hnz : ∀ b ∈ bs, b ≠ 0) :
+    (bs ++ 0 :: tail).findIdx? (· == 0) = some bs.length := by
+  induction bs with
+  | nil => simp [List.findIdx?_cons]
+  | cons b t ih =>
+    have hb : (b == 0) = false := by simpa using hnz b (by simp)
+    simp only [List.cons_append, List.findIdx?_cons, hb, Bool.false_eq_true, if_false]
+    rw [ih (fun x hx => hnz x (List.mem_cons_of_mem _ hx))]
+    simp
+
+/-- **strings.** A recognised string is recognised again from its packed encoding, whatever follows. -/
+theorem str_enc (ws bs rest : List Nat) (h : Spec.str ws = some (bs, rest)) (r' : List Nat) :
+    Spec.str (packStr bs ++ r') = some (bs, r') := by
+  unfold Spec.str at h
+  cases hf : (ws.flatMap Spec.wordBytes).findIdx? (· == 0) with
+  | none => rw [hf] at h; cases h
+  | some nul =>
+    rw [hf] at h
+    dsimp only at h
+    split at h
+    · rename_i hutf
+      cases h
+      obtain ⟨hnl, _, hmin⟩ := List.findIdx?_eq_some_iff_getElem.1 hf
+      have hlt : ∀ b ∈ (ws.flatMap Spec.wordBytes).take nul, b < 256 :=
+        fun b hb => flatMap_wordBytes_lt ws b (List.mem_of_mem_take hb)
+      have hnz : ∀ b ∈ (ws.flatMap Spec.wordBytes).take nul, b ≠ 0 := by
+        intro b hb
+        obtain ⟨j, hj, rfl⟩ := List.mem_iff_getElem.1 hb
+        rw [List.length_take] at hj
+        have hj' : j < nul := by omega
+        rw [List.getElem_take]
+        have := hmin j hj'
+        simpa using this
+      generalize (ws.flatMap Spec.wordBytes).take nul = bs at hutf hlt hnz ⊢
+      obtain ⟨hbytes, hlen⟩ := packStr_bytes bs.length bs rfl hlt
+      unfold Spec.str
+      rw [List.flatMap_append, hbytes]
+      have hrep : List.replicate (4 - bs.length % 4) 0 = 0 :: List.replicate (3 - bs.length % 4) 0 := by
+        have : 4 - bs.length % 4 = (3 - bs.length % 4) + 1 := by omega
+        rw [this, List.replicate_succ]
+      rw [hrep, List.append_assoc, List.cons_append, findIdx_zero bs _ hnz]
+      dsimp only
+      rw [List.take_left' rfl]
+      simp only [hutf, if_true]
+      rw [← hlen, List.drop_left' rfl]
+    · cases h
+
+/-! ### elements and logical operands -/
+
+def encOps (os : List Operand) : List Nat := os.flatMap encodeOperand
+
+theorem encOps_cons (o : Operand) (os : List Operand) : encOps (o :: os) = encodeOperand o ++ encOps os := rfl
+theorem encOps_append (a b : List Operand) : encOps (a ++ b) = encOps a ++ encOps b := by simp [encOps]
+
+/-- every enumeration's `from_u32` returns the number it was given (C08's table check) -/
+def EnumsExact (G : Tables) : Prop := ∀ E ∈ G.enums, E.rangesExact = true
+
+theorem elem_enc (G : Tables) (hex : EnumsExact G) (e : Elem) (ws : List Nat) (o : Operand) (rest : List Nat)
+    (h : Spec.elem G e ws = some (o, rest)) (r' : List Nat) :
+    Spec.elem G e (encodeOperand o ++ r') = some (o, r') := by
+  unfold Spec.elem at h ⊢
+  split at h
+  · rename_i h0
+    simp only [h0, if_true]
+    cases ws with
+    | nil => cases h
+    | cons w t =>
+      dsimp only at h
+      cases hE : G.enums[e.ix]? with
+      | none => rw [hE] at h; cases h
+      | some E =>
+        rw [hE] at h
+        dsimp only at h
+        cases hf : E.fromU32 w with
+        | none => rw [hf] at h; cases h
+        | some v =>
+          rw [hf] at h
+          cases h
+          have hv : v = w := (EnumSpec.fromU32_exact E (hex E (List.mem_of_getElem? hE)) w).2 v hf
+          subst hv
+          simp only [encodeOperand, List.cons_append, List.nil_append, hE, hf]
+  · rename_i h0
+    simp only [h0, Bool.false_eq_true, if_false] at h ⊢
+    split at h
+    · rename_i h1
+      simp only [h1, if_true]
+      cases ws with
+      | nil => cases h
+      | cons w t =>
+        dsimp only at h
+        cases hM : G.masks[e.ix]? with
+        | none => rw [hM] at h; cases h
+        | some M =>
+          rw [hM] at h
+          dsimp only at h
+          cases hf : M.fromBits w with
+          | none => rw [hf] at h; cases h
+          | some v =>
+            rw [hf] at h
+            cases h
+            have hv : v = w := by
+              unfold MaskSpec.fromBits at hf
+              split at hf
+              · cases hf; rfl
+              · cases hf
+            subst hv
+            simp only [encodeOperand, List.cons_append, List.nil_append, hM, hf]
+    · rename_i h1
+      simp only [h1, Bool.false_eq_true, if_false] at h ⊢
+      split at h
+      · rename_i h2
+        simp only [h2, if_true]
+        cases ws with
+        | nil => cases h
+        | cons w t => cases h; simp only [encodeOperand, List.cons_append, List.nil_append]
+      · rename_i h2
+        simp only [h2, Bool.false_eq_true, if_false]
+        cases hs : Spec.str ws with
+        | none => rw [hs] at h; cases h
+        | some p =>
+          obtain ⟨bs, rest'⟩ := p
+          rw [hs] at h
+          cases h
+          simp only [encodeOperand, str_enc ws bs rest hs r']
+
+theorem elems_enc (G : Tables) (hex : EnumsExact G) : ∀ (es : List Elem) (ws : List Nat) (os : List Operand) (rest : List Nat),
+    Spec.elems G es ws = some (os, rest) → ∀ r', Spec.elems G es (encOps os ++ r') = some (os, r')
+  | [], ws, os, rest, h, r' => by simp only [Spec.elems] at h; cases h; rfl
+  | e :: es, ws, os, rest, h, r' => by
+    unfold Spec.elems at h
+    cases h1 : Spec.elem G e ws with
+    | none => rw [h1] at h; cases h
+    | some p =>
+      obtain ⟨o, t⟩ := p
+      rw [h1] at h
+      dsimp only at h
+      cases h2 : Spec.elems G es t with
+      | none => rw [h2] at h; cases h
+      | some q =>
+        obtain ⟨os', t'⟩ := q
+        rw [h2] at h
+        cases h
+        unfold Spec.elems
+        rw [encOps_cons, List.append_assoc, elem_enc G hex e ws o t h1]
+        dsimp only
+        rw [elems_enc G hex es t os' rest h2 r']
+
+theorem operand_enc (G : Tables) (hex : EnumsExact G) (k : Nat) (ws : List Nat) (os : List Operand) (rest : List Nat)
+    (h : Spec.operand G k ws = some (os, rest)) (r' : List Nat) :
+    Spec.operand G k (encOps os ++ r') = some (os, r') := by
+  unfold Spec.operand at h ⊢
+  cases ha : G.kindActs[k]? with
+  | none => rw [ha] at h; cases h
+  | some act =>
+    rw [ha] at h
+    cases act with
+    | panics => cases h
+    | elems es => exact elems_enc G hex es ws os rest h r'
+    | maskParams e rows =>
+      dsimp only at h ⊢
+      cases h1 : Spec.elem G e ws with
+      | none => rw [h1] at h; cases h
+      | some p =>
+        obtain ⟨v, t⟩ := p
+        rw [h1] at h
+        dsimp only at h
+        cases h2 : Spec.elems G (maskSel rows v.num) t with
+        | none => rw [h2] at h; cases h
+        | some q =>
+          obtain ⟨os', t'⟩ := q
+          rw [h2] at h
+          cases h
+          rw [encOps_cons, List.append_assoc, elem_enc G hex e ws v t h1]
+          dsimp only
+          rw [elems_enc G hex _ t os' rest h2 r']
+    | enumParams e rows =>
+      dsimp only at h ⊢
+      cases h1 : Spec.elem G e ws with
+      | none => rw [h1] at h; cases h
+      | some p =>
+        obtain ⟨v, t⟩ := p
+        rw [h1] at h
+        dsimp only at h
+        cases h2 : Spec.elems G (enumSel rows v.num) t with
+        | none => rw [h2] at h; cases h
+        | some q =>
+          obtain ⟨os', t'⟩ := q
+          rw [h2] at h
+          cases h
+          rw [encOps_cons, List.append_assoc, elem_enc G hex e ws v t h1]
+          dsimp only
+          rw [elems_enc G hex _ t os' rest h2 r']
+
+/-! ### literals -/
+
+theorem literal_enc (G : Tables) (τ : Tracker) (ty : Nat) (ws : List Nat) (o : Operand) (rest : List Nat)
+    (h : Spec.literal G τ ty ws = some (o, rest)) (r' : List Nat) :
+    Spec.literal G τ ty (encodeOperand o ++ r') = some (o, r') := by
+  have h1 : ∀ o rest, Spec.lit1 G ws = some (o, rest) → Spec.lit1 G (encodeOperand o ++ r') = some (o, r') := by
+    intro o rest h
+    unfold Spec.lit1 at h
+    cases ws with
+    | nil => cases h
+    | cons w t => cases h; rfl
+  have h2 : ∀ o rest, Spec.lit2 ws = some (o, rest) → Spec.lit2 (encodeOperand o ++ r') = some (o, r') := by
+    intro o rest h
+    unfold Spec.lit2 at h
+    cases ws with
+    | nil => cases h
+    | cons lo t =>
+      cases t with
+      | nil => cases h
+      | cons hi t' =>
+        cases h
+        have e1 : (hi % 4294967296 * 4294967296 + lo % 4294967296) % 4294967296 = lo % 4294967296 := by omega
+        have e2 : (hi % 4294967296 * 4294967296 + lo % 4294967296) / 4294967296 = hi % 4294967296 := by omega
+        simp only [Spec.lit2, encodeOperand, List.cons_append, List.nil_append, e1, e2, Nat.mod_mod]
+  unfold Spec.literal at h ⊢
+  cases hres : τ.resolve ty with
+  | none => rw [hres] at h; exact h1 o rest h
+  | some t =>
+    rw [hres] at h
+    cases t with
+    | int w sg =>
+      dsimp only at h ⊢
+      split at h
+      · rename_i hc; simp only [hc, if_true]; exact h1 o rest h
+      · rename_i hc
+        simp only [hc, Bool.false_eq_true, if_false]
+        split at h
+        · rename_i hc2; simp only [hc2, if_true]; exact h2 o rest h
+        · cases h
+    | float w =>
+      dsimp only at h ⊢
+      split at h
+      · rename_i hc; simp only [hc, if_true]; exact h1 o rest h
+      · rename_i hc
+        simp only [hc, Bool.false_eq_true, if_false]
+        split at h
+        · rename_i hc2; simp only [hc2, if_true]; exact h2 o rest h
+        · cases h
+
+/-! ### progress of the recogniser -/
+
+theorem encodeOperand_ne (o : Operand) : encodeOperand o ≠ [] := by
+  cases o with
+  | w v x => simp [encodeOperand]
+  | q x => simp [encodeOperand]
+  | s bs =>
+    simp only [encodeOperand]
+    match bs with
+    | [] => simp [packStr]
+    | [_] => simp [packStr]
+    | [_, _] => simp [packStr]
+    | [_, _, _] => simp [packStr]
+    | _ :: _ :: _ :: _ :: _ => simp [packStr]
+
+theorem encOps_ne (os : List Operand) (h : os ≠ []) : encOps os ≠ [] := by
+  cases os with
+  | nil => exact absurd rfl h
+  | cons o t =>
+    rw [encOps_cons]
+    intro he
+    exact encodeOperand_ne o (List.append_eq_nil_iff.1 he).1
+
+theorem elems_length (G : Tables) : ∀ (es : List Elem) (ws : List Nat) (os : List Operand) (rest : List Nat),
+    Spec.elems G es ws = some (os, rest) → os.length = es.length
+  | [], ws, os, rest, h => by simp only [Spec.elems] at h; cases h; rfl
+  | e :: es, ws, os, rest, h => by
+    unfold Spec.elems at h
+    cases h1 : Spec.elem G e ws with
+    | none => rw [h1] at h; cases h
+    | some p =>
+      obtain ⟨o, t⟩ := p
+      rw [h1] at h
+      dsimp only at h
+      cases h2 : Spec.elems G es t with
+      | none => rw [h2] at h; cases h
+      | some q =>
+        obtain ⟨os', t'⟩ := q
+        rw [h2] at h
+        cases h
+        simp [elems_length G es t os' rest h2]
+
+theorem operand_nonempty (G : Tables) (k : Nat) (hk : kindOk G k = true) (ws : List Nat) (os : List Operand) (rest : List Nat)
+    (h : Spec.operand G k ws = some (os, rest)) : os ≠ [] := by
+  unfold kindOk at hk
+  unfold Spec.operand at h
+  cases ha : G.kindActs[k]? with
+  | none => rw [ha] at hk; cases hk
+  | some act =>
+    rw [ha] at hk h
+    cases act with
+    | panics => cases hk
+    | elems es =>
+      simp only [actOk, Bool.and_eq_true, Bool.not_eq_true', List.isEmpty_eq_false_iff] at hk
+      have := elems_length G es ws os rest h
+      intro he; rw [he] at this
+      exact hk.1 (List.eq_nil_of_length_eq_zero this.symm)
+    | maskParams e rows =>
+      dsimp only at h
+      cases h1 : Spec.elem G e ws with
+      | none => rw [h1] at h; cases h
+      | some p =>
+        obtain ⟨v, t⟩ := p
+        rw [h1] at h
+        dsimp only at h
+        cases h2 : Spec.elems G (maskSel rows v.num) t with
+        | none => rw [h2] at h; cases h
+        | some q => obtain ⟨os', t'⟩ := q; rw [h2] at h; cases h; simp
+    | enumParams e rows =>
+      dsimp only at h
+      cases h1 : Spec.elem G e ws with
+      | none => rw [h1] at h; cases h
+      | some p =>
+        obtain ⟨v, t⟩ := p
+        rw [h1] at h
+        dsimp only at h
+        cases h2 : Spec.elems G (enumSel rows v.num) t with
+        | none => rw [h2] at h; cases h
+        | some q => obtain ⟨os', t'⟩ := q; rw [h2] at h; cases h; simp
+
+theorem operand_nil (G : Tables) (k : Nat) (hk : kindOk G k = true) : Spec.operand G k [] = none := by
+  cases h : Spec.operand G k [] with
+  | none => rfl
+  | some p =>
+    obtain ⟨os, rest⟩ := p
+    exfalso
+    -- a successful operand consumes at least the words of one element: there are none
+    have hne := operand_nonempty G k hk [] os rest h
+    unfold kindOk at hk
+    unfold Spec.operand at h
+    cases ha : G.kindActs[k]? with
+    | none => rw [ha] at hk; cases hk
+    | some act =>
+      rw [ha] at hk h
+      have elem_nil : ∀ e, Spec.elem G e [] = none := by
+        intro e
+        unfold Spec.elem
+        split
+        · rfl
+        · split
+          · rfl
+          · split
+            · rfl
+            · simp [Spec.str]
+      cases act with
+      | panics => cases hk
+      | elems es =>
+        cases es with
+        | nil => simp only [Spec.elems] at h; cases h; exact hne rfl
+        | cons e es => simp only [Spec.elems, elem_nil] at h; cases h
+      | maskParams e rows => simp only [elem_nil] at h; cases h
+      | enumParams e rows => simp only [elem_nil] at h; cases h
+
+/-! ### OpSpecConstantOp -/
+
+theorem many_enc (G : Tables) (hex : EnumsExact G) (k : Nat) (hk : kindOk G k = true) : ∀ (fuel : Nat) (ws : List Nat)
+    (os : List Operand), Spec.many G k fuel ws = some os → ∀ fuel', (encOps os).length < fuel' →
+    Spec.many G k fuel' (encOps os) = some os
+  | 0, _, _, h, _, _ => by simp only [Spec.many] at h; cases h
+  | fuel + 1, ws, os, h, fuel', hf => by
+    unfold Spec.many at h
+    cases fuel' with
+    | zero => exact absurd hf (Nat.not_lt_zero _)
+    | succ f' =>
+      split at h
+      · cases h; simp [Spec.many, encOps]
+      · cases h1 : Spec.operand G k ws with
+        | none => rw [h1] at h; cases h
+        | some p =>
+          obtain ⟨os1, t⟩ := p
+          rw [h1] at h
+          dsimp only at h
+          cases h2 : Spec.many G k fuel t with
+          | none => rw [h2] at h; cases h
+          | some more =>
+            rw [h2] at h
+            cases h
+            have hne := encOps_ne os1 (operand_nonempty G k hk ws os1 t h1)
+            rw [encOps_append] at hf ⊢
+            unfold Spec.many
+            have hnotempty : (encOps os1 ++ encOps more).isEmpty = false := by
+              cases hx : encOps os1 with
+              | nil => exact absurd hx hne
+              | cons _ _ => rfl
+            simp only [hnotempty, Bool.false_eq_true, if_false]
+            rw [operand_enc G hex k ws os1 t h1 (encOps more)]
+            dsimp only
+            have hlen : 0 < (encOps os1).length := by
+              cases hx : encOps os1 with
+              | nil => exact absurd hx hne
+              | cons _ _ => simp
+            simp only [List.length_append] at hf
+            rw [many_enc G hex k hk fuel t more h2 f' (by omega)]
+
+theorem nested_nil (G : Tables) : ∀ (ops : List (Nat × Nat)) (os : List Operand) (rest : List Nat),
+    nestedOk G ops = true → Spec.nested G ops [] = some (os, rest) → os = [] ∧ rest = []
+  | [], os, rest, _, h => by simp only [Spec.nested] at h; cases h; exact ⟨rfl, rfl⟩
+  | (k, q) :: ops, os, rest, hok, h => by
+    simp only [nestedOk, List.all_cons, Bool.and_eq_true] at hok
+    unfold Spec.nested at h
+    split at h
+    · exact nested_nil G ops os rest hok.2 h
+    · rename_i hres
+      have hk : kindOk G k = true := by
+        have := hok.1
+        simp only [Bool.or_eq_true] at this hres
+        rcases this with (h' | h') | h'
+        · exact absurd (Or.inl h') hres
+        · exact absurd (Or.inr h') hres
+        · exact h'
+      dsimp only at h
+      cases h2 : Spec.nested G ops [] with
+      | none =>
+        by_cases hq0 : (q == 0) = true
+        · simp only [hq0, if_true, operand_nil G k hk] at h; cases h
+        · simp only [hq0, Bool.false_eq_true, if_false] at h
+          by_cases hq1 : (q == 1) = true
+          · simp only [hq1, if_true, List.isEmpty_nil, h2] at h; cases h
+          · simp only [hq1, Bool.false_eq_true, if_false, Spec.many, List.isEmpty_nil, if_true, h2] at h; cases h
+      | some p =>
+        obtain ⟨more, t'⟩ := p
+        obtain ⟨e1, e2⟩ := nested_nil G ops more t' hok.2 h2
+        subst e1; subst e2
+        by_cases hq0 : (q == 0) = true
+        · simp only [hq0, if_true, operand_nil G k hk] at h; cases h
+        · simp only [hq0, Bool.false_eq_true, if_false] at h
+          by_cases hq1 : (q == 1) = true
+          · simp only [hq1, if_true, List.isEmpty_nil, h2] at h; cases h; exact ⟨rfl, rfl⟩
+          · simp only [hq1, Bool.false_eq_true, if_false, Spec.many, List.isEmpty_nil, if_true, h2] at h
+            cases h; exact ⟨rfl, rfl⟩
+
+/-- the embedded operands are recognised again from their encoding, followed by `r'` — which must be empty if the
+original left nothing over (a variadic operand takes everything that follows) -/
+theorem nested_enc (G : Tables) (hex : EnumsExact G) : ∀ (ops : List (Nat × Nat)) (ws : List Nat) (os : List Operand)
+    (rest : List Nat), nestedOk G ops = true → Spec.nested G ops ws = some (os, rest) →
+    ∀ r', (rest = [] → r' = []) → Spec.nested G ops (encOps os ++ r') = some (os, r')
+  | [], ws, os, rest, _, h, r', _ => by simp only [Spec.nested] at h; cases h; rfl
+  | (k, q) :: ops, ws, os, rest, hok, h, r', hr' => by
+    have hok' := hok
+    simp only [nestedOk, List.all_cons, Bool.and_eq_true] at hok
+    unfold Spec.nested at h ⊢
+    split at h
+    · rename_i hres
+      simp only [hres, if_true]
+      exact nested_enc G hex ops ws os rest hok.2 h r' hr'
+    · rename_i hres
+      simp only [hres, Bool.false_eq_true, if_false]
+      have hk : kindOk G k = true := by
+        have := hok.1
+        simp only [Bool.or_eq_true] at this hres
+        rcases this with (h' | h') | h'
+        · exact absurd (Or.inl h') hres
+        · exact absurd (Or.inr h') hres
+        · exact h'
+      by_cases hq0 : (q == 0) = true
+      · simp only [hq0, if_true] at h ⊢
+        cases h1 : Spec.operand G k ws with
+        | none => rw [h1] at h; cases h
+        | some p =>
+          obtain ⟨os1, t⟩ := p
+          rw [h1] at h
+          dsimp only at h
+          cases h2 : Spec.nested G ops t with
+          | none => rw [h2] at h; cases h
+          | some p2 =>
+            obtain ⟨more, t'⟩ := p2
+            rw [h2] at h
+            cases h
+            rw [encOps_append, List.append_assoc, operand_enc G hex k ws os1 t h1]
+            dsimp only
+            rw [nested_enc G hex ops t more rest hok.2 h2 r' hr']
+      · simp only [hq0, Bool.false_eq_true, if_false] at h ⊢
+        by_cases hq1 : (q == 1) = true
+        · simp only [hq1, if_true] at h ⊢
+          by_cases hemp : ws.isEmpty = true
+          · simp only [hemp, if_true] at h
+            have hws : ws = [] := List.isEmpty_iff.1 hemp
+            subst hws
+            cases h2 : Spec.nested G ops [] with
+            | none => rw [h2] at h; cases h
+            | some p2 =>
+              obtain ⟨more, t'⟩ := p2
+              rw [h2] at h
+              cases h
+              obtain ⟨e1, e2⟩ := nested_nil G ops more rest hok.2 h2
+              subst e1; subst e2
+              have := hr' rfl
+              subst this
+              simp only [encOps, List.flatMap_nil, List.append_nil, List.isEmpty_nil, if_true, h2]
+          · simp only [hemp, Bool.false_eq_true, if_false] at h
+            cases h1 : Spec.operand G k ws with
+            | none => rw [h1] at h; cases h
+            | some p =>
+              obtain ⟨os1, t⟩ := p
+              rw [h1] at h
+              dsimp only at h
+              cases h2 : Spec.nested G ops t with
+              | none => rw [h2] at h; cases h
+              | some p2 =>
+                obtain ⟨more, t'⟩ := p2
+                rw [h2] at h
+                cases h
+                have hne := encOps_ne os1 (operand_nonempty G k hk ws os1 t h1)
+                rw [encOps_append, List.append_assoc]
+                have hnotempty : (encOps os1 ++ (encOps more ++ r')).isEmpty = false := by
+                  cases hx : encOps os1 with
+                  | nil => exact absurd hx hne
+                  | cons _ _ => rfl
+                simp only [hnotempty, Bool.false_eq_true, if_false]
+                rw [operand_enc G hex k ws os1 t h1]
+                dsimp only
+                rw [nested_enc G hex ops t more rest hok.2 h2 r' hr']
+        · simp only [hq1, Bool.false_eq_true, if_false] at h ⊢
+          cases h1 : Spec.many G k (ws.length + 1) ws with
+          | none => rw [h1] at h; cases h
+          | some os1 =>
+            rw [h1] at h
+            dsimp only at h
+            cases h2 : Spec.nested G ops [] with
+            | none => rw [h2] at h; cases h
+            | some p2 =>
+              obtain ⟨more, t'⟩ := p2
+              rw [h2] at h
+              cases h
+              obtain ⟨e1, e2⟩ := nested_nil G ops more rest hok.2 h2
+              subst e1; subst e2
+              have := hr' rfl
+              subst this
+              simp only [List.append_nil]
+              rw [many_enc G hex k hk (ws.length + 1) ws os1 h1 ((encOps os1).length + 1) (by omega)]
+              dsimp only
+              rw [h2]
+              simp
+
+theorem specOp_enc (G : Tables) (hc : coreKindsOk G = true) (hex : EnumsExact G) (ws : List Nat) (os : List Operand)
+    (rest : List Nat) (h : Spec.specOp G ws = some (os, rest)) (r' : List Nat) (hr' : rest = [] → r' = []) :
+    Spec.specOp G (encOps os ++ r') = some (os, r') ∧ os ≠ [] := by
+  unfold Spec.specOp at h
+  cases ws with
+  | nil => cases h
+  | cons number t =>
+    dsimp only at h
+    generalize hg : Option.filter (fun e => !(e.ops.any (fun o => isCtxKind G o.1)))
+      (if number ≤ 65535 then lookupOpcode G.core number else none) = g at h
+    cases g with
+    | none => cases h
+    | some e =>
+      dsimp only at h
+      have hinfo : number ≤ 65535 ∧ lookupOpcode G.core number = some e ∧ (e.ops.any (fun o => isCtxKind G o.1)) = false := by
+        rw [Option.filter_eq_some_iff] at hg
+        obtain ⟨hlook, hp⟩ := hg
+        split at hlook
+        · rename_i hle; exact ⟨hle, hlook, by simpa using hp⟩
+        · cases hlook
+      obtain ⟨hle, hlook, hnoctx⟩ := hinfo
+      obtain ⟨hmem, hop⟩ := lookupOpcode_some _ _ _ hlook
+      have hnest : nestedOk G e.ops = true := by
+        simp only [coreKindsOk, List.all_eq_true] at hc
+        simp only [nestedOk, List.all_eq_true]
+        intro o ho
+        have h1 := hc e hmem o ho
+        have h2 : isCtxKind G o.1 = false := by
+          rw [List.any_eq_false] at hnoctx
+          simpa using hnoctx o ho
+        simp only [Bool.or_eq_true, h2, Bool.false_eq_true, or_false] at h1 ⊢
+        exact h1
+      cases h2 : Spec.nested G e.ops t with
+      | none => rw [h2] at h; cases h
+      | some p =>
+        obtain ⟨os', t'⟩ := p
+        rw [h2] at h
+        cases h
+        refine ⟨?_, by simp⟩
+        unfold Spec.specOp
+        rw [encOps_cons]
+        simp only [encodeOperand, List.cons_append, List.nil_append]
+        rw [hop, hg]
+        dsimp only
+        rw [nested_enc G hex e.ops t os' rest hnest h2 r' hr']
+        simp [hop]
+
+/-! ### `parse_operands` -/
+
+/-- the words the assembler emits after the first one: result type, result id, operands -/
+def accWords (a : Acc) : List Nat := a.rtype.toList ++ a.rid.toList ++ encOps a.ops
+
+theorem accWords_ops (a : Acc) (os : List Operand) : accWords { a with ops := a.ops ++ os } = accWords a ++ encOps os := by
+  simp [accWords, encOps_append, List.append_assoc]
+
+/-- every kind of the list is either one of the context dependent kinds or parsable by `parse_operand`, or a result kind -/
+def KindsOk (G : Tables) (ops : List (Nat × Nat)) : Prop :=
+  ∀ o ∈ ops, (o.1 == G.kIdResultType || o.1 == G.kIdResult || isCtxKind G o.1 || kindOk G o.1) = true
+
+/-- one logical operand is recognised again from its encoding -/
+theorem one_enc (G : Tables) (hc : coreKindsOk G = true) (hex : EnumsExact G) (τ : Tracker) (opcode k : Nat) (a a1 : Acc)
+    (ws t : List Nat) (h : Spec.one G τ opcode k a ws = some (a1, t))
+    (hk : (k == G.kIdResultType || k == G.kIdResult || isCtxKind G k || kindOk G k) = true)
+    (hrt : (k == G.kIdResultType) = true → a.rtype = none ∧ a.rid = none ∧ a.ops = [])
+    (hrid : (k == G.kIdResult) = true → a.rid = none ∧ a.ops = []) :
+    ∃ enc, enc ≠ [] ∧ accWords a1 = accWords a ++ enc ∧
+      ∀ r', (t = [] → r' = []) → Spec.one G τ opcode k a (enc ++ r') = some (a1, r') := by
+  unfold Spec.one at h
+  by_cases k1 : (k == G.kIdResultType) = true
+  · simp only [k1, if_true] at h
+    cases ws with
+    | nil => cases h
+    | cons w t0 =>
+      cases h
+      obtain ⟨e1, e2, e3⟩ := hrt k1
+      refine ⟨[w], by simp, ?_, ?_⟩
+      · simp [accWords, e1, e2, e3, encOps]
+      · intro r' _; simp [Spec.one, k1]
+  · simp only [k1, Bool.false_eq_true, if_false] at h
+    by_cases k2 : (k == G.kIdResult) = true
+    · simp only [k2, if_true] at h
+      cases ws with
+      | nil => cases h
+      | cons w t0 =>
+        cases h
+        obtain ⟨e2, e3⟩ := hrid k2
+        refine ⟨[w], by simp, ?_, ?_⟩
+        · simp [accWords, e2, e3, encOps]
+        · intro r' _; simp [Spec.one, k1, k2]
+    · simp only [k2, Bool.false_eq_true, if_false] at h
+      by_cases k3 : (k == G.kCtxNumber) = true
+      · simp only [k3, if_true] at h
+        split at h
+        · cases h
+        · rename_i hop
+          cases hrtype : a.rtype with
+          | none => rw [hrtype] at h; cases h
+          | some ty =>
+            rw [hrtype] at h
+            dsimp only at h
+            cases hl : Spec.literal G τ ty ws with
+            | none => rw [hl] at h; cases h
+            | some p =>
+              obtain ⟨o, t'⟩ := p
+              rw [hl] at h
+              cases h
+              refine ⟨encodeOperand o, encodeOperand_ne o, ?_, ?_⟩
+              · have := accWords_ops a [o]; rw [hrtype] at this; simpa [encOps] using this
+              · intro r' _
+                simp only [Spec.one, k1, k2, k3, Bool.false_eq_true, if_false, if_true, hop, hrtype,
+                  literal_enc G τ ty ws o t hl r']
+      · simp only [k3, Bool.false_eq_true, if_false] at h
+        by_cases k4 : (k == G.kPairLitId) = true
+        · simp only [k4, if_true] at h
+          split at h
+          · cases h
+          · rename_i hop
+            cases hops : a.ops with
+            | nil => rw [hops] at h; cases h
+            | cons o0 tl =>
+              rw [hops] at h
+              cases o0 with
+              | q v => cases h
+              | s bsx => cases h
+              | w v sel =>
+                dsimp only at h
+                split at h
+                · cases h
+                · rename_i hv0
+                  cases hl : Spec.literal G τ sel ws with
+                  | none => rw [hl] at h; cases h
+                  | some p =>
+                    obtain ⟨lit, t'⟩ := p
+                    rw [hl] at h
+                    cases t' with
+                    | nil => cases h
+                    | cons tgt t'' =>
+                      cases h
+                      refine ⟨encodeOperand lit ++ [tgt], by simp, ?_, ?_⟩
+                      · have := accWords_ops a [lit, .w G.vIdRef tgt]
+                        rw [hops] at this
+                        simpa [encOps, encodeOperand, hops] using this
+                      · intro r' _
+                        simp only [Spec.one, k1, k2, k3, k4, Bool.false_eq_true, if_false, if_true, hop, hops, hv0,
+                          List.append_assoc, literal_enc G τ sel ws lit (tgt :: t) hl ([tgt] ++ r')]
+                        rfl
+        · simp only [k4, Bool.false_eq_true, if_false] at h
+          by_cases k5 : (k == G.kSpecOp) = true
+          · simp only [k5, if_true] at h
+            cases hs : Spec.specOp G ws with
+            | none => rw [hs] at h; cases h
+            | some p =>
+              obtain ⟨os, t'⟩ := p
+              rw [hs] at h
+              cases h
+              have hne := (specOp_enc G hc hex ws os t hs [] (fun _ => rfl)).2
+              refine ⟨encOps os, encOps_ne os hne, accWords_ops a os, ?_⟩
+              intro r' hr'
+              simp only [Spec.one, k1, k2, k3, k4, k5, Bool.false_eq_true, if_false, if_true,
+                (specOp_enc G hc hex ws os t hs r' hr').1]
+          · simp only [k5, Bool.false_eq_true, if_false] at h
+            have hkind : kindOk G k = true := by
+              have hctx : isCtxKind G k = false := by
+                simp only [isCtxKind, Bool.or_eq_false_iff]
+                exact ⟨⟨by simpa using k3, by simpa using k4⟩, by simpa using k5⟩
+              simp only [Bool.or_eq_true, hctx, Bool.false_eq_true, or_false] at hk
+              rcases hk with (h' | h') | h'
+              · exact absurd h' k1
+              · exact absurd h' k2
+              · exact h'
+            cases hs : Spec.operand G k ws with
+            | none => rw [hs] at h; cases h
+            | some p =>
+              obtain ⟨os, t'⟩ := p
+              rw [hs] at h
+              cases h
+              refine ⟨encOps os, encOps_ne os (operand_nonempty G k hkind ws os t hs), accWords_ops a os, ?_⟩
+              intro r' _
+              simp only [Spec.one, k1, k2, k3, k4, k5, Bool.false_eq_true, if_false, operand_enc G hex k ws os t hs r']
+
+/-- no result kind in the list -/
+def NoRes (G : Tables) (ops : List (Nat × Nat)) : Prop :=
+  ∀ o ∈ ops, (o.1 == G.kIdResultType) = false ∧ (o.1 == G.kIdResult) = false
+
+/-- where result kinds may still come in the list (at most a required result type first, then a required result id),
+and that the accumulator is still empty enough for their words to be *appended* to the emitted words -/
+def LeadOk (G : Tables) : List (Nat × Nat) → Acc → Prop
+  | [], _ => True
+  | (k, q) :: rest, a =>
+    if (k == G.kIdResultType) = true then
+      q = 0 ∧ a.rtype = none ∧ a.rid = none ∧ a.ops = [] ∧
+      (match rest with
+       | [] => True
+       | (k2, q2) :: rest2 => if (k2 == G.kIdResult) = true then q2 = 0 ∧ NoRes G rest2 else NoRes G rest)
+    else if (k == G.kIdResult) = true then q = 0 ∧ a.rid = none ∧ a.ops = [] ∧ NoRes G rest
+    else NoRes G ((k, q) :: rest)
+
+theorem leadOk_of_noRes (G : Tables) : ∀ (ops : List (Nat × Nat)) (a : Acc), NoRes G ops → LeadOk G ops a
+  | [], _, _ => trivial
+  | (k, q) :: rest, a, h => by
+    have hk := h (k, q) List.mem_cons_self
+    simp only [LeadOk, hk.1, hk.2, Bool.false_eq_true, if_false]
+    exact h
+
+theorem NoRes.tail {G : Tables} {o : Nat × Nat} {t : List (Nat × Nat)} (h : NoRes G (o :: t)) : NoRes G t :=
+  fun x hx => h x (List.mem_cons_of_mem _ hx)
+
+theorem loop_nil (G : Tables) (τ : Tracker) (opcode : Nat) : ∀ (fuel : Nat) (ops : List (Nat × Nat)) (a a' : Acc)
+    (r : List Nat), Spec.loop G τ opcode fuel ops a [] = some (a', r) → a' = a ∧ r = []
+  | 0, _, _, _, _, h => by simp only [Spec.loop] at h; cases h
+  | fuel + 1, [], a, a', r, h => by simp only [Spec.loop] at h; cases h; exact ⟨rfl, rfl⟩
+  | fuel + 1, (k, q) :: rest, a, a', r, h => by
+    simp only [Spec.loop, List.isEmpty_nil, Bool.not_true, Bool.false_eq_true, if_false] at h
+    split at h
+    · cases h
+    · cases h; exact ⟨rfl, rfl⟩
+
+/-- reading a result type touches nothing else -/
+theorem one_rtype (G : Tables) (τ : Tracker) (opcode k : Nat) (a a1 : Acc) (ws t : List Nat)
+    (hk : (k == G.kIdResultType) = true) (h : Spec.one G τ opcode k a ws = some (a1, t)) :
+    a1.rid = a.rid ∧ a1.ops = a.ops := by
+  unfold Spec.one at h
+  simp only [hk, if_true] at h
+  cases ws with
+  | nil => cases h
+  | cons w t0 => cases h; exact ⟨rfl, rfl⟩
+
+/-- **the operand loop on its own output's encoding.** If the loop collects `a'` from some words, leaving none, then the
+words the assembler emits for what was collected are recognised as `a'` again, by the same loop with any sufficient fuel. -/
+theorem loop_enc (G : Tables) (hc : coreKindsOk G = true) (hex : EnumsExact G) (τ : Tracker) (opcode : Nat)
+    (hne : (G.kIdResult == G.kIdResultType) = false) :
+    ∀ (fuel : Nat) (ops : List (Nat × Nat)) (a a' : Acc) (ws : List Nat),
+    Spec.loop G τ opcode fuel ops a ws = some (a', []) → LeadOk G ops a → KindsOk G ops →
+    ∃ E, accWords a' = accWords a ++ E ∧
+      ∀ fuel', ops.length + E.length < fuel' → Spec.loop G τ opcode fuel' ops a E = some (a', [])
+  | 0, _, _, _, _, h, _, _ => by simp only [Spec.loop] at h; cases h
+  | fuel + 1, [], a, a', ws, h, _, _ => by
+    simp only [Spec.loop] at h
+    cases h
+    refine ⟨[], by simp, ?_⟩
+    intro fuel' hf
+    cases fuel' with
+    | zero => exact absurd hf (Nat.not_lt_zero _)
+    | succ f' => simp [Spec.loop]
+  | fuel + 1, (k, q) :: rest, a, a', ws, h, hlead, hkinds => by
+    unfold Spec.loop at h
+    by_cases hemp : ws.isEmpty = true
+    · simp only [hemp, Bool.not_true, Bool.false_eq_true, if_false] at h
+      split at h
+      · cases h
+      · rename_i hq
+        cases h
+        refine ⟨[], by simp, ?_⟩
+        intro fuel' hf
+        cases fuel' with
+        | zero => exact absurd hf (Nat.not_lt_zero _)
+        | succ f' => simp [Spec.loop, hq]
+    · have hemp' : ws.isEmpty = false := by simpa using hemp
+      simp only [hemp', Bool.not_false, if_true] at h
+      cases h1 : Spec.one G τ opcode k a ws with
+      | none => rw [h1] at h; cases h
+      | some p =>
+        obtain ⟨a1, t⟩ := p
+        rw [h1] at h
+        dsimp only at h
+        have hkk := hkinds (k, q) List.mem_cons_self
+        have hk12 : (k == G.kIdResult) = true → (k == G.kIdResultType) = false := by
+          intro hk2
+          rw [beq_iff_eq] at hk2
+          rw [hk2]; exact hne
+        have hrt : (k == G.kIdResultType) = true → a.rtype = none ∧ a.rid = none ∧ a.ops = [] := by
+          intro hk1
+          simp only [LeadOk, hk1, if_true] at hlead
+          exact ⟨hlead.2.1, hlead.2.2.1, hlead.2.2.2.1⟩
+        have hrid : (k == G.kIdResult) = true → a.rid = none ∧ a.ops = [] := by
+          intro hk2
+          simp only [LeadOk, hk12 hk2, hk2, Bool.false_eq_true, if_false, if_true] at hlead
+          exact ⟨hlead.2.1, hlead.2.2.1⟩
+        obtain ⟨enc1, hne1, hacc1, hre1⟩ := one_enc G hc hex τ opcode k a a1 ws t h1 hkk hrt hrid
+        have hlen1 : 0 < enc1.length := by
+          cases hx : enc1 with
+          | nil => exact absurd hx hne1
+          | cons _ _ => simp
+        have hkrest : KindsOk G rest := fun o ho => hkinds o (List.mem_cons_of_mem _ ho)
+        -- the common ending: given the continuation's encoding, assemble the claim
+        have finish : ∀ (ops' : List (Nat × Nat)) (E2 : List Nat),
+            Spec.loop G τ opcode fuel ops' a1 t = some (a', []) →
+            accWords a' = accWords a1 ++ E2 →
+            (∀ fuel', ops'.length + E2.length < fuel' → Spec.loop G τ opcode fuel' ops' a1 E2 = some (a', [])) →
+            (∀ f', Spec.loop G τ opcode (f' + 1) ((k, q) :: rest) a (enc1 ++ E2) =
+              (if q == 2 then Spec.loop G τ opcode f' ((k, q) :: rest) a1 E2 else Spec.loop G τ opcode f' rest a1 E2)) := by
+          intro ops' E2 hl hacc2 _ f'
+          have hE2 : t = [] → E2 = [] := by
+            intro ht
+            subst ht
+            have := (loop_nil G τ opcode fuel ops' a1 a' [] hl).1
+            subst this
+            exact (List.self_eq_append_right.1 hacc2)
+          have hnotempty : (enc1 ++ E2).isEmpty = false := by
+            cases hx : enc1 with
+            | nil => exact absurd hx hne1
+            | cons _ _ => rfl
+          conv => lhs; unfold Spec.loop
+          simp only [hnotempty, Bool.not_false, if_true, hre1 E2 hE2]
+        by_cases hq2 : (q == 2) = true
+        · simp only [hq2, if_true] at h
+          have hnores : NoRes G ((k, q) :: rest) := by
+            by_cases hk1 : (k == G.kIdResultType) = true
+            · simp only [LeadOk, hk1, if_true] at hlead
+              rw [hlead.1] at hq2; cases hq2
+            · by_cases hk2 : (k == G.kIdResult) = true
+              · simp only [LeadOk, hk1, hk2, Bool.false_eq_true, if_false, if_true] at hlead
+                rw [hlead.1] at hq2; cases hq2
+              · simpa only [LeadOk, hk1, hk2, Bool.false_eq_true, if_false] using hlead
+          obtain ⟨E2, hacc2, hre2⟩ := loop_enc G hc hex τ opcode hne fuel ((k, q) :: rest) a1 a' t h
+            (leadOk_of_noRes G _ a1 hnores) hkinds
+          refine ⟨enc1 ++ E2, by rw [hacc2, hacc1, List.append_assoc], ?_⟩
+          intro fuel' hf
+          cases fuel' with
+          | zero => exact absurd hf (Nat.not_lt_zero _)
+          | succ f' =>
+            rw [finish _ E2 h hacc2 hre2 f']
+            simp only [hq2, if_true]
+            apply hre2
+            simp only [List.length_append, List.length_cons] at hf ⊢
+            omega
+        · simp only [hq2, Bool.false_eq_true, if_false] at h
+          have hlead1 : LeadOk G rest a1 := by
+            by_cases hk1 : (k == G.kIdResultType) = true
+            · simp only [LeadOk, hk1, if_true] at hlead
+              obtain ⟨_, _, hrid0, hops0, hrest⟩ := hlead
+              obtain ⟨e1, e2⟩ := one_rtype G τ opcode k a a1 ws t hk1 h1
+              cases rest with
+              | nil => trivial
+              | cons o2 rest2 =>
+                obtain ⟨k2, q2⟩ := o2
+                dsimp only at hrest
+                by_cases hk22 : (k2 == G.kIdResult) = true
+                · simp only [hk22, if_true] at hrest
+                  have hk21 : (k2 == G.kIdResultType) = false := by
+                    rw [beq_iff_eq] at hk22; rw [hk22]; exact hne
+                  simp only [LeadOk, hk21, hk22, Bool.false_eq_true, if_false, if_true]
+                  exact ⟨hrest.1, by rw [e1]; exact hrid0, by rw [e2]; exact hops0, hrest.2⟩
+                · simp only [hk22, Bool.false_eq_true, if_false] at hrest
+                  exact leadOk_of_noRes G _ a1 hrest
+            · by_cases hk2 : (k == G.kIdResult) = true
+              · simp only [LeadOk, hk1, hk2, Bool.false_eq_true, if_false, if_true] at hlead
+                exact leadOk_of_noRes G _ a1 hlead.2.2.2
+              · have : NoRes G ((k, q) :: rest) := by
+                  simpa only [LeadOk, hk1, hk2, Bool.false_eq_true, if_false] using hlead
+                exact leadOk_of_noRes G _ a1 this.tail
+          obtain ⟨E2, hacc2, hre2⟩ := loop_enc G hc hex τ opcode hne fuel rest a1 a' t h hlead1 hkrest
+          refine ⟨enc1 ++ E2, by rw [hacc2, hacc1, List.append_assoc], ?_⟩
+          intro fuel' hf
+          cases fuel' with
+          | zero => exact absurd hf (Nat.not_lt_zero _)
+          | succ f' =>
+            rw [finish _ E2 h hacc2 hre2 f']
+            simp only [hq2, Bool.false_eq_true, if_false]
+            apply hre2
+            simp only [List.length_append, List.length_cons] at hf ⊢
+            omega
+
+/-! ### instructions -/
+
+/-- the Boolean table check `resultsLead` (C09: part of `Entry.wf`) gives `LeadOk` for the empty accumulator -/
+theorem leadOk_of_resultsLead (G : Tables) (ops : List (Nat × Nat))
+    (h : resultsLead ⟨G.kIdResultType, G.kIdResult⟩ ops = true) : LeadOk G ops ⟨none, none, []⟩ := by
+  have conv : ∀ l : List (Nat × Nat), noResultKinds ⟨G.kIdResultType, G.kIdResult⟩ l = true → NoRes G l := by
+    intro l hl o ho
+    simp only [noResultKinds, List.all_eq_true, Bool.and_eq_true, bne_iff_ne, ne_eq] at hl
+    have := hl o ho
+    exact ⟨by simpa using this.1, by simpa using this.2⟩
+  cases ops with
+  | nil => trivial
+  | cons o t =>
+    obtain ⟨k, q⟩ := o
+    unfold resultsLead at h
+    dsimp only at h
+    by_cases hk1 : (k == G.kIdResultType) = true
+    · simp only [hk1, if_true, Bool.and_eq_true] at h
+      have hq : q = 0 := beq_iff_eq.1 h.1
+      simp only [LeadOk, hk1, if_true]
+      refine ⟨hq, by simp, by simp, by simp, ?_⟩
+      cases t with
+      | nil => trivial
+      | cons o2 t2 =>
+        obtain ⟨k2, q2⟩ := o2
+        have h2 := h.2
+        dsimp only at h2 ⊢
+        by_cases hk22 : (k2 == G.kIdResult) = true
+        · simp only [hk22, if_true, Bool.and_eq_true] at h2 ⊢
+          exact ⟨beq_iff_eq.1 h2.1, conv _ h2.2⟩
+        · simp only [hk22, Bool.false_eq_true, if_false] at h2 ⊢
+          exact conv _ h2
+    · simp only [hk1, Bool.false_eq_true, if_false] at h
+      by_cases hk2 : (k == G.kIdResult) = true
+      · simp only [hk2, if_true, Bool.and_eq_true] at h
+        simp only [LeadOk, hk1, hk2, Bool.false_eq_true, if_false, if_true]
+        exact ⟨beq_iff_eq.1 h.1, by simp, by simp, conv _ h.2⟩
+      · simp only [hk2, Bool.false_eq_true, if_false] at h
+        simp only [LeadOk, hk1, hk2, Bool.false_eq_true, if_false]
+        exact conv _ h
+
+/-- what the theorems need of the tables; each item is a Boolean check decided by the kernel on the regenerated tables -/
+structure GoodTables (G : Tables) : Prop where
+  kinds : coreKindsOk G = true
+  enums : EnumsExact G
+  lead : ∀ e ∈ G.core, resultsLead ⟨G.kIdResultType, G.kIdResult⟩ e.ops = true
+  distinct : (G.kIdResult == G.kIdResultType) = false
+
+theorem first_word (op len : Nat) (hop : op < 65536) (hlen : len < 65536) :
+    (op ||| (len * 65536 % 4294967296)) / 65536 = len ∧ (op ||| (len * 65536 % 4294967296)) % 65536 = op := by
+  have h1 : len * 65536 % 4294967296 = len * 65536 := Nat.mod_eq_of_lt (by omega)
+  rw [h1]
+  have h2 : op ||| len * 65536 = 2 ^ 16 * len + op := by
+    rw [Nat.two_pow_add_eq_or_of_lt (i := 16) (by omega) len, Nat.or_comm]
+    congr 1
+    omega
+  rw [h2]
+  omega
+
+/-- **C02 (at the level of the grammar).** An instruction the recogniser produces is recognised again from the words
+the assembler emits for it, followed by any continuation. -/
+theorem C02_spec (G : Tables) (good : GoodTables G) (τ : Tracker) (ws : List Nat) (i : Inst) (rest : List Nat)
+    (h : Spec.inst G τ ws = some (i, rest)) (hlen : (assembleInst i).length < 65536) (r' : List Nat) :
+    Spec.inst G τ (assembleInst i ++ r') = some (i, r') := by
+  unfold Spec.inst at h
+  cases ws with
+  | nil => cases h
+  | cons w0 t =>
+    dsimp only at h
+    split at h
+    · cases h
+    · rename_i hwc
+      cases hlook : lookupOpcode G.core (w0 % 65536) with
+      | none => rw [hlook] at h; cases h
+      | some e =>
+        rw [hlook] at h
+        dsimp only at h
+        split at h
+        · cases h
+        · cases hl : Spec.loop G τ e.opcode (w0 / 65536 + e.ops.length + 1) e.ops ⟨none, none, []⟩ (t.take (w0 / 65536 - 1)) with
+          | none => rw [hl] at h; cases h
+          | some p =>
+            obtain ⟨a, r0⟩ := p
+            rw [hl] at h
+            cases r0 with
+            | cons _ _ => cases h
+            | nil =>
+              cases h
+              obtain ⟨hmem, hop⟩ := lookupOpcode_some _ _ _ hlook
+              have hkinds : KindsOk G e.ops := by
+                have := good.kinds
+                simp only [coreKindsOk, List.all_eq_true] at this
+                exact fun o ho => this e hmem o ho
+              obtain ⟨E, hacc, hre⟩ := loop_enc G good.kinds good.enums τ e.opcode good.distinct _ e.ops _ a _ hl
+                (leadOk_of_resultsLead G e.ops (good.lead e hmem)) hkinds
+              have hE : E = accWords a := by simpa [accWords, encOps] using hacc.symm
+              -- the words the assembler emits
+              have hasm : assembleInst ⟨e.opcode, a.rtype, a.rid, a.ops⟩ =
+                  (e.opcode ||| ((accWords a).length + 1) * 65536 % 4294967296) :: accWords a := by
+                simp [assembleInst, accWords, encOps]
+              rw [hasm] at hlen ⊢
+              simp only [List.length_cons] at hlen
+              have hop16 : e.opcode < 65536 := by rw [hop]; omega
+              obtain ⟨f1, f2⟩ := first_word e.opcode ((accWords a).length + 1) hop16 hlen
+              unfold Spec.inst
+              simp only [List.cons_append, f1, f2]
+              have hlook' : lookupOpcode G.core e.opcode = some e := by rw [hop]; exact hlook
+              rw [hlook']
+              have hwc' : ((accWords a).length + 1 == 0) = false := by simp
+              simp only [hwc', Bool.false_eq_true, if_false, Nat.add_sub_cancel, List.length_append]
+              have hnl : ¬ ((accWords a).length + r'.length < (accWords a).length) := by omega
+              simp only [hnl, if_false, List.take_left' rfl, List.drop_left' rfl]
+              rw [← hE, hre _ (by omega)]
+
+/-- **C02 (first word).** The assembler's first word carries the number of words it emits and the opcode. -/
+theorem C02_first_word (i : Inst) (hop : i.opcode < 65536) (hlen : (assembleInst i).length < 65536) :
+    ∃ w0 body, assembleInst i = w0 :: body ∧ w0 / 65536 = (assembleInst i).length ∧ w0 % 65536 = i.opcode ∧
+      body = i.rtype.toList ++ i.rid.toList ++ i.operands.flatMap encodeOperand := by
+  refine ⟨_, _, rfl, ?_, ?_, rfl⟩
+  · have := (first_word i.opcode _ hop (by simpa [assembleInst] using hlen)).1
+    simpa [assembleInst] using this
+  · have := (first_word i.opcode _ hop (by simpa [assembleInst] using hlen)).2
+    simpa [assembleInst] using this
+
+/-! ### the parser model on the assembled bytes -/
+
+theorem le32_wordBytes (w : Nat) (hw : w < 4294967296) (pre post : List Nat) :
+    le32 (pre ++ Spec.wordBytes w ++ post) pre.length = w := by
+  unfold le32
+  have g : ∀ j (hj : j < 4), (pre ++ Spec.wordBytes w ++ post).getD (pre.length + j) 0 = (Spec.wordBytes w).getD j 0 := by
+    intro j hj
+    rw [List.getD_eq_getElem?_getD, List.getD_eq_getElem?_getD, List.append_assoc, List.getElem?_append_right (by omega)]
+    have : pre.length + j - pre.length = j := by omega
+    rw [this, List.getElem?_append_left (by simp [Spec.wordBytes]; omega)]
+  have g0 := g 0 (by omega); have g1 := g 1 (by omega); have g2 := g 2 (by omega); have g3 := g 3 (by omega)
+  simp only [Nat.add_zero] at g0
+  rw [g0, g1, g2, g3]
+  simp only [Spec.wordBytes, List.getD_eq_getElem?_getD, List.getElem?_cons_zero, List.getElem?_cons_succ, Option.getD_some]
+  omega
+
+/-- a buffer made of `pre` followed by the bytes of `ws`, seen from the end of `pre` -/
+theorem sview_of_words : ∀ (ws : List Nat) (pre : List Nat), WordsOk ws → (∀ b ∈ pre, b < 256) →
+    (pre ++ ws.flatMap Spec.wordBytes).length < 2 ^ 63 →
+    SView (pre ++ ws.flatMap Spec.wordBytes) ⟨pre ++ ws.flatMap Spec.wordBytes, pre.length, none⟩ ws := by
+  intro ws pre hw hpre hsmall
+  have hlen := flatMap_wordBytes_length ws
+  refine ⟨rfl, rfl, ?_, ?_, ?_, ?_, hsmall⟩
+  · simp only [List.length_append, hlen]; omega
+  · simp only [List.length_append, hlen]; omega
+  · intro k hk
+    -- split the words at position k
+    have hsplit : ws = ws.take k ++ ws[k] :: ws.drop (k + 1) := by
+      rw [List.getElem_cons_drop_succ_eq_drop, List.take_append_drop]
+    have hk' : (ws.take k).length = k := by rw [List.length_take]; omega
+    have hbytes : pre ++ ws.flatMap Spec.wordBytes =
+        (pre ++ (ws.take k).flatMap Spec.wordBytes) ++ Spec.wordBytes ws[k] ++ (ws.drop (k + 1)).flatMap Spec.wordBytes := by
+      have e : ws.flatMap Spec.wordBytes = (ws.take k ++ ws[k] :: ws.drop (k + 1)).flatMap Spec.wordBytes := by
+        rw [← hsplit]
+      rw [e, List.flatMap_append, List.flatMap_cons]
+      simp only [List.append_assoc]
+    have hpl : (pre ++ (ws.take k).flatMap Spec.wordBytes).length = pre.length + 4 * k := by
+      rw [List.length_append, flatMap_wordBytes_length, hk']
+    rw [hbytes]
+    have := le32_wordBytes ws[k] (hw _ (List.getElem_mem hk)) (pre ++ (ws.take k).flatMap Spec.wordBytes)
+      ((ws.drop (k + 1)).flatMap Spec.wordBytes)
+    rw [hpl] at this
+    show le32 _ (pre.length + 4 * k) = _
+    rw [this]
+    simp [List.getD_eq_getElem?_getD, hk]
+  · intro b hb
+    rcases List.mem_append.1 hb with h | h
+    · exact hpre b h
+    · exact flatMap_wordBytes_lt ws b h
+
+open Rspirv.Instances in
+/-- the regenerated tables are good (C04's, C08's and C09's kernel-evaluated table checks) -/
+theorem good_tables : GoodTables theTables := by
+  refine ⟨?_, ?_, ?_, by decide⟩
+  · have := tables_safe
+    simp only [tablesSafe, Bool.and_eq_true] at this
+    exact this.1
+  · intro E hE
+    have := Rspirv.Props.C08.enums_wf
+    rw [List.all_eq_true] at this
+    have h := this E hE
+    rw [Bool.and_eq_true] at h
+    exact h.1
+  · intro e he
+    have := Rspirv.Props.C09.tables_ok
+    simp only [Rspirv.Props.C09.tablesOk, Bool.and_eq_true, List.all_eq_true] at this
+    have h := this.1.1.1.1.1.1.2 e he
+    simp only [Bool.and_eq_true, Entry.wf] at h
+    exact h.2.1.1
+
+open Rspirv.Instances in
+/-- **C02.** Let `i` be an instruction of the grammar (recognised from some words under the tracked types `τ`) whose
+encoding fits the 16-bit word count and consists of 32-bit words. Write the words the assembler emits for `i` as
+little-endian bytes anywhere in a buffer, after `pre` and before the bytes of further words `r'`: `parse_inst` at that
+position delivers exactly `i` and stops in front of `r'`. -/
+theorem C02 (τ : Tracker) (idx : Nat) (ws : List Nat) (i : Inst) (rest : List Nat)
+    (h : Spec.inst theTables τ ws = some (i, rest)) (hlen : (assembleInst i).length < 65536)
+    (r' pre : List Nat) (hw : WordsOk (assembleInst i ++ r')) (hpre : ∀ b ∈ pre, b < 256)
+    (hsmall : (pre ++ (assembleInst i ++ r').flatMap Spec.wordBytes).length < 2 ^ 63) :
+    ∃ d', parseInst theTables τ idx ⟨pre ++ (assembleInst i ++ r').flatMap Spec.wordBytes, pre.length, none⟩ = (.ok i, d') ∧
+      SView (pre ++ (assembleInst i ++ r').flatMap Spec.wordBytes) d' r' := by
+  have hspec := C02_spec theTables good_tables τ ws i rest h hlen r'
+  have hv := sview_of_words (assembleInst i ++ r') pre hw hpre hsmall
+  -- the assembled words start with the word-count word; its declared extent is the assembled words themselves
+  obtain ⟨w0, body, hasm, _, _, _⟩ : ∃ w0 body, assembleInst i = w0 :: body ∧ True ∧ True ∧ True := ⟨_, _, rfl, trivial, trivial, trivial⟩
+  rw [hasm, List.cons_append] at hv hspec
+  by_cases hfit : w0 / 65536 - 1 ≤ (body ++ r').length
+  · have := parseInst_ref theTables good_tables.kinds τ idx _ w0 (body ++ r') hv hfit
+    rw [hspec] at this
+    rw [hasm, List.cons_append]
+    exact this
+  · rw [Rspirv.Props.C03.inst_overrun theTables τ w0 (body ++ r') (by omega)] at hspec
+    cases hspec
+
 end Rspirv.Props.C02
